@@ -14,7 +14,9 @@ import (
 	"fmt"
 	"math/rand"
 	"os"
+	"runtime"
 	"strconv"
+	"strings"
 
 	"verif/harness/internal/ysm"
 )
@@ -46,10 +48,11 @@ func main() {
 // companion module texts (trees) that must be loaded with it.  Everything else in
 // the line (expectation) is for the driver and is passed through untouched.
 type Probe struct {
-	Tree    *ysm.Stmt   `json:"tree"`
-	Compile bool        `json:"compile"`
-	Comp    []*ysm.Stmt `json:"comp"`
-	Kwq     string      `json:"kwq"` // keyword-table query: is this keyword a YANG statement for the parser?
+	Tree    *ysm.Stmt       `json:"tree"`
+	Compile bool            `json:"compile"`
+	Comp    []*ysm.Stmt     `json:"comp"`
+	Kwq     string          `json:"kwq"`    // keyword-table query: is this keyword a YANG statement for the parser?
+	Expand  []ysm.Directive `json:"expand"` // large multiplicities: copies the renderer must write out
 }
 
 type Result struct {
@@ -106,13 +109,21 @@ func run(args []string) {
 		if p.Tree == nil {
 			return enc.Encode(Result{ID: n, KwKnown: ysm.KeywordKnown(p.Kwq)})
 		}
-		r := ysm.Render(p.Tree)
+		tree := p.Tree
+		if len(p.Expand) > 0 {
+			tree = ysm.Expand(tree, p.Expand)
+		}
+		r := ysm.Render(tree)
 		var comps []string
 		for _, c := range p.Comp {
 			comps = append(comps, ysm.Render(c).Text)
 		}
 		o := ysm.Run(r, p.Compile, comps)
-		return enc.Encode(Result{ID: n, Text: r.Text, Comp: comps, Obs: o})
+		text := r.Text
+		if len(text) > 4000 {
+			text = text[:2000] + "\n... (" + strconv.Itoa(len(text)) + " bytes; expand directives applied) ...\n" + text[len(text)-1500:]
+		}
+		return enc.Encode(Result{ID: n, Text: text, Comp: comps, Obs: o})
 	})
 	if err != nil {
 		die(err)
@@ -142,9 +153,15 @@ type Event struct {
 	Text    string    `json:"-"`
 }
 
+// History is a TLC-generated sequence of trees to be parsed with one shared pair of interners.
+type History struct {
+	Label []string    `json:"label"`
+	Seq   []*ysm.Stmt `json:"seq"`
+}
+
 type Base struct {
-	ID   int       `json:"id"`
-	Tree *ysm.Stmt `json:"tree"`
+	ID   int         `json:"id"`
+	Tree *ysm.Stmt   `json:"tree"`
 	Pool []*ysm.Stmt `json:"pool"`
 }
 
@@ -251,6 +268,7 @@ func record(args []string) {
 	out := fs.String("out", "", "event file (ndjson)")
 	per := fs.Int("per", 4, "mutants per base tree")
 	fs.Parse(args)
+	hists := fs.Args() // history files: sequences of trees parsed with one shared pair of interners
 	seed, _ := strconv.ParseInt(os.Getenv("VERIF_SEED"), 10, 64)
 	rng := rand.New(rand.NewSource(seed*7919 + 17))
 	of, err := os.Create(*out)
@@ -300,9 +318,59 @@ func record(args []string) {
 	if err != nil {
 		die(err)
 	}
+	// histories: every text of a sequence goes through parse.ParseWithInterners with the SAME interners;
+	// each is logged as an ordinary event and judged on its own by the spec.
+	//
+	// At the pin a failed parse leaves its lexer goroutine behind (property C07); with shared interners
+	// that goroutine may still be interning its look-ahead token while the next parse has started
+	// ("fatal error: concurrent map read and map write" in StringInterner.Intern, observed here).  That
+	// is not what this property is about, so histories run on one P and yield after every parse, which
+	// lets an abandoned lexer run into its blocking send before the next text is parsed.
+	nh := 0
+	if len(hists) > 0 {
+		runtime.GOMAXPROCS(1)
+	}
+	for _, hf := range hists {
+		err = readLines(hf, func(b []byte) error {
+			var h History
+			if err := json.Unmarshal(b, &h); err != nil {
+				return err
+			}
+			nh++
+			in := ysm.NewInterners()
+			for k, t := range h.Seq {
+				r := ysm.Render(t)
+				risky := ysm.CompileRisky(t)
+				o := ysm.RunWith(r, !risky, nil, in)
+				for y := 0; y < 3; y++ {
+					runtime.Gosched()
+				}
+				n++
+				ev := Event{ID: n, Mut: fmt.Sprintf("hist:%s:%d.%d/%d", strings.Join(h.Label, ","), nh, k+1, len(h.Seq)), Tree: t,
+					ParseOk: o.ParseOk, Ok: o.ParseOk && o.CompileOk, Located: o.Located,
+					ErrPath: o.ErrPathSeq, AtStmt: o.ErrPath != "-", Named: o.Named, Skipped: o.ParseOk && risky}
+				if o.Panic != "" {
+					ev.Err = ascii("PANIC " + o.Panic)
+					ev.Panic = true
+				} else {
+					ev.Err = ascii(o.ParseErr + o.CompileErr)
+				}
+				if ev.ErrPath == nil {
+					ev.ErrPath = []int{}
+				}
+				if err := enc.Encode(ev); err != nil {
+					return err
+				}
+			}
+			return nil
+		})
+		if err != nil {
+			die(err)
+		}
+	}
 	w.Flush()
 	of.Close()
-	fmt.Fprintf(os.Stderr, "ys record: %d events\n", n)
+	fmt.Fprintf(os.Stderr, "ys record: %d events (%d histories)\n", n, nh)
 }
 
 // ---------------------------------------------------------------- by hand
